@@ -5,13 +5,33 @@ from ._tree import make
 PATTERNS = ["*.tmp", "a?", "[ab]*", "Sound/", "notes", "*.txt", "Clips"]
 
 
+def big_tree(rng):
+    """a tree whose generation holds well over a hundred records (write paths that batch or page must not lose or repeat any)"""
+    tree = {}
+    n_dirs = rng.choice([3, 5, 8])
+    for d in range(n_dirs):
+        kids = {}
+        for f in range(rng.choice([12, 20, 35])):
+            kids["f%03d.bin" % f] = {"f": "%02x%02x%02x" % (d, f, rng.randrange(256))}
+        tree["D%02d" % d] = {"d": kids}
+    for f in range(rng.choice([5, 30, 60])):
+        tree["top%03d.dat" % f] = {"f": "ee%02x%02x" % (f, rng.randrange(256))}
+    return tree
+
+
 def scenario(rng, i):
+    if i % 20 == 7:
+        tree = big_tree(rng)
+        steps = [{"op": "create", "fmts": gen.gen_fmts(rng)}, {"op": "verify"}]
+        if rng.random() < 0.5:
+            steps.append({"op": "create", "fmts": gen.gen_fmts(rng), **({"n": True} if rng.random() < 0.5 else {})})
+        return {"tree": tree, "steps": steps}
     # every third scenario uses patterns, incl. ones bound to a location (nested paths, globs below a folder, root-anchored names)
     pats = (lambda tree, r: PATTERNS + gen.path_patterns(tree, r, k=3)) if i % 3 == 0 else None
     return gen.gen_history_scenario(rng, n_steps=rng.choice([3, 5, 7]), patterns=pats)
 
 
-RULE = ("random trees (0-14 entries, depth <= 4, empty files/dirs, names with spaces, non-ASCII, XML-special, glob characters, U+2028), "
+RULE = ("random trees (0-14 entries; one in twenty with 100-400 entries in one generation, depth <= 4, empty files/dirs, names with spaces, non-ASCII, XML-special, glob characters, U+2028), "
         "prior histories from earlier create runs (root, nested, -sf, -n, patterns), then create; every scenario runs on the real tool and on the "
         "extracted model; oracle: records == os-independent walk of the abstract tree filtered by pathspec on root-relative paths, path form, "
         "digests recomputed. A scenario is non-trivial when at least one create wrote a generation with records.")
